@@ -22,6 +22,13 @@ Fails(r) ==
   \cup Bad(r.fwd = e.chars, "chars_forward")
   \cup Bad(r.rev = Rev(e.chars), "chars_backward")
   \cup Bad(r.display = e.chars, "display")
+  \cup Bad(r.nth = e.chars, "chars_nth")
+  \cup Bad(r.nth_back = Rev(e.chars), "chars_nth_back")
+  \cup Bad(r.rev_skip = Rev(e.chars), "chars_rev_skip")
+  \cup Bad(r.alt = [k \in 1..n |-> IF k % 2 = 1 THEN e.chars[(k + 1) \div 2] ELSE e.chars[n + 1 - (k \div 2)]], "chars_alternating_ends")
+  \cup Bad(r.count = n, "chars_count")
+  \cup Bad(r.last = (IF n = 0 THEN -1 ELSE e.chars[n]), "chars_last")
+  \cup Bad(r.past_end, "chars_past_end")
   \cup UNION { Bad(r.slices[k].b <= n /\ r.slices[k].a <= r.slices[k].b
                    /\ r.slices[k].chars = SubSeq(e.chars, r.slices[k].a + 1, r.slices[k].b)
                    /\ r.slices[k].repr = e.repr, "slice_" \o r.slices[k].form) : k \in 1..Len(r.slices) }
